@@ -53,11 +53,12 @@ def run(ctx):
             for (c, body, kind) in bodies:
                 C = f"{c.rel}:{c.qual}.{name}"
                 bad = False
-                for n in protocol.unresolved_reads(view, body):
+                sn = view.selfname_of(body)
+                for n in protocol.unresolved_reads(view, body, sn):
                     bad = True
                     rep.bad("C06.R2", C, n, f"`self.{n.attr}` is read but no class in the MRO (nor System.assemble) ever defines it (AttributeError when evaluated)",
                             f"{c.rel}:{n.lineno}")
-                for (expr, op) in protocol.callable_misuse(view, body):
+                for (expr, op) in protocol.callable_misuse(view, body, sn):
                     bad = True
                     rep.bad("C06.R2", C, expr, f"`self.{op.attr}` is a {view.kind(op.attr)} attribute but is used as an array operand without being called",
                             f"{c.rel}:{expr.lineno}")
@@ -107,6 +108,22 @@ MUTANTS = [
          old="        r_PS = -self.r * self.n(t)\n        v_S = self.v_P(t, q, u) + cross3(self.Omega(t, q, u), r_PS)\n        r_QS = self.r_OP(t, q) + r_PS - self.r_OQ(t)\n        v_F = self.v_Q(t) + self.Omega_F_tilde(t) @ r_QS\n        return self.A.T @ self.t1t2(t) @ (v_S - v_F)",
          new="        r_PS = -self.r * self.n(t)\n        v_S = self.v_P(t, q, u) + cross3(self.Omega(t, q, u), r_PS)\n        r_QS = self.r_OP(t, q) + r_PS - self.r_OQ(t)\n        v_F = self.v_Q(t) + self.Omega_F(t) @ r_QS\n        return self.A.T @ self.t1t2(t) @ (v_S - v_F)", expect="C06.R2"),
 ]
+MUTANTS += [
+    dict(id="c06-m9", canary=True, what="Sphere2Plane.g_N_dot_q drops the n_dot * r_OP_q term", file=S2P,
+         old="            [self.n(t) @ self.v_P_q(t, q, u) + self.n_dot(t) @ self.r_OP_q(t, q)],", new="            [self.n(t) @ self.v_P_q(t, q, u)],", expect="C06.R5"),
+    dict(id="c06-m10", what="Sphere2Plane.g_N_ddot drops the n_ddot term", file=S2P,
+         old="                + self.n_ddot(t) @ (self.r_OP(t, q) - self.r_OQ(t))\n", new="", expect="C06.R5"),
+    dict(id="c06-m11", what="Sphere2Plane.gamma_F_dot drops the moving-frame term Psi_F_tilde @ r_QS", file=S2P,
+         old="            self.a_Q(t) + self.Psi_F_tilde(t) @ r_QS + self.Omega_F_tilde(t) @ r_QS_dot", new="            self.a_Q(t) + self.Omega_F_tilde(t) @ r_QS_dot", expect="C06.R5"),
+    dict(id="c06-m12", what="Sphere2Plane.gamma_F_u drops the rotational part J_R", file=S2P,
+         old="        J_S = self.J_P(t, q) - r_PS_tilde @ self.J_R(t, q)\n        return self.A.T @ self.t1t2(t) @ J_S",
+         new="        J_S = self.J_P(t, q)\n        return self.A.T @ self.t1t2(t) @ J_S", expect="C06.R5"),
+    dict(id="c06-m13", what="Sphere2Sphere.Wla_N_q drops the n_q terms (uses only J_q)", file=S2S,
+         old="        nq1, nq2 = self.n_q1_q2(t, q)\n        J_C1 = self.J_C1(t, q)", new="        nq1, nq2 = 0 * q[:3], 0 * q[:3]\n        J_C1 = self.J_C1(t, q)", expect="C06.R5"),
+    dict(id="c06-m14", what="Sphere2Sphere.__gamma_F_q forgets the tangent derivatives t1t2_q1_q2", file=S2S,
+         old="        t1_q1, t1_q2, t2_q1, t2_q2 = self.t1t2_q1_q2(t, q)\n\n        v_P1 = self.v_C1(t, q, u)", new="        t1_q1 = t1_q2 = t2_q1 = t2_q2 = np.zeros((3, 1))\n\n        v_P1 = self.v_C1(t, q, u)", expect="C06.R5"),
+]
+BLIND_SPOTS += ["a dropped chain-rule term whose companion is still referenced elsewhere in the same derivative routine (function granularity)"]
 NEUTRAL = [
     dict(id="c06-n1", canary=True, what="local alias for the lambda result", file=S2P,
          old="        J_S = self.J_P(t, q) - r_PS_tilde @ self.J_R(t, q)\n        return self.A.T @ self.t1t2(t) @ J_S",
